@@ -23,7 +23,7 @@ impl Deserialize for TransactionBodies {
                 cbor_event::Len::Len(n) => arr.len() < n as usize,
                 cbor_event::Len::Indefinite => true,
             } {
-                if is_break_tag(raw, "TransactionBodies")? {
+                if is_break_tag(raw, &len, "TransactionBodies")? {
                     break;
                 }
                 arr.push(TransactionBody::deserialize(raw)?);
